@@ -8,7 +8,8 @@ set -u
 ID="$1"; WT="${2:-/tmp/wt/$ID}"; STORE="${3:-$ID}"; low=$(echo "$ID" | tr 'A-Z' 'a-z')
 cd "$WT" || exit 2
 export CARGO_TARGET_DIR="$WT/target"
-DEMO=$(ls tests/seeded_* 2>/dev/null | head -1); DEMONAME=$(basename "$DEMO" .rs)
+DEMO=$(ls tests/seeded_* serialization-tests/tests/seeded_* 2>/dev/null | head -1); DEMONAME=$(basename "$DEMO" .rs)
+PKG=""; case "$DEMO" in serialization-tests/*) PKG="-p petgraph-serialization-tests";; esac
 [ -z "$DEMO" ] && { echo "no demo test"; exit 2; }
 git diff --quiet -- src && { echo "no source change applied"; exit 2; }
 git diff -- src > /tmp/confirm_$ID.diff
@@ -27,7 +28,7 @@ print(json.dumps({"baseline_passed": len(passed & base), "baseline_total": len(b
 PY
 cat /tmp/confirm_$ID.suite
 git apply -R /tmp/confirm_$ID.diff || { echo "cannot revert the change"; exit 2; }   # (git stash is shared between worktrees: not used)
-cargo test --offline --test "$DEMONAME" > /tmp/confirm_$ID.demo 2>&1; rc=$?
+cargo test --offline $PKG --test "$DEMONAME" > /tmp/confirm_$ID.demo 2>&1; rc=$?
 git apply /tmp/confirm_$ID.diff
 echo "demo without change: exit $rc"
 mkdir -p /verif/seeded/$STORE
